@@ -5,6 +5,8 @@ import (
 	"fmt"
 	"sort"
 	"strings"
+
+	"github.com/bufbuild/buf/private/pkg/thread"
 )
 
 // version is a valuation of the slots of Breaking.tla.
@@ -361,6 +363,8 @@ func render(v version) (map[string]string, map[string]int) {
 	}
 	w.l("field:P.4", "optional int64 big = 4"+js+";")
 	w.l("field:P.5", v["pc_card"]+" int32 pc = 5;")
+	puType, puDefault, _ := strings.Cut(v["pu"], ":")
+	w.l("field:P.6", "optional "+puType+" u = 6 [default = "+puDefault+"];")
 	if present("p_newreq") {
 		w.l("field:P.30", "required int32 newreq = 30;")
 	}
@@ -408,7 +412,9 @@ func render(v version) (map[string]string, map[string]int) {
 	// ---------------------------------------------------------------- c.proto
 	if present("c_file") {
 		w = nw("c.proto")
-		w.l("syntax", `syntax = "`+v["c_syntax"]+`";`)
+		if v["c_syntax"] != "unspecified" {
+			w.l("syntax", `syntax = "`+v["c_syntax"]+`";`)
+		}
 		w.l("package", "package "+v["c_pkg"]+";")
 		w.endBlock()
 		if present("c_msg") {
@@ -437,5 +443,25 @@ func render(v version) (map[string]string, map[string]int) {
 		w.endBlock()
 		files["d.proto"] = w.finish()
 	}
+	// ---------------------------------------------------------------- fillers
+	if v["fillers"] != "none" {
+		for i := 0; i < FillerCount(); i++ {
+			w = nw(fmt.Sprintf("filler/f%04d.proto", i))
+			w.l("syntax", `syntax = "proto3";`)
+			w.l("package", fmt.Sprintf("package filler.f%04d;", i))
+			w.endBlock()
+			w.open("message:F", "message F {")
+			w.l("", "string id = 1;")
+			if v["fillers"] == "present" {
+				w.l("", "string gone = 2;")
+			}
+			w.close()
+			w.endBlock()
+			files[w.file] = w.finish()
+		}
+	}
 	return files, anchors
 }
+
+// FillerCount is the number of extra files: enough for the chunked construction of source files, with a remainder.
+func FillerCount() int { return 8*thread.Parallelism() + 7 }
